@@ -63,6 +63,11 @@ def run(chk):
     cert_props(chk)
     run_certs(chk, ["dim_unread"])
 
+    # tie to the source by regeneration: the listed definitions are re-translated from /repo by py2coq on
+    # every run and PROVED equal to the hand models (coq/props/TIE.v), plus a translator self-check
+    from props._tie import run_tie
+    run_tie(chk, ['context'])
+
 
 def replay(chk, payload):
     print(json.dumps(payload, indent=1)[:4000])
